@@ -140,3 +140,29 @@ func TestDump(t *testing.T) {
 		fmt.Printf("pipe %d: c2s=%d bytes s2c=%d bytes delivered=%d closed=%v stallBegan=%v/%v\n", p.ID, p.C2SLen(), p.S2CLen(), p.S2CDelivered(), p.Client.Closed(), time.Duration(a), time.Duration(b))
 	}
 }
+
+// TestDumpC03 shows committed content vs. reference for a C03 replay file (debug aid).
+func TestDumpC03(t *testing.T) {
+	if *fDump == "" || *fProp != "C03" {
+		t.Skip("no C03 dump request")
+	}
+	raw, _ := os.ReadFile(*fDump)
+	var rf ReplayFile
+	_ = json.Unmarshal(raw, &rf)
+	var sc C03Scenario
+	if err := json.Unmarshal(rf.Scenario, &sc); err != nil {
+		t.Fatal(err)
+	}
+	run := ExecSend(t, &sc.SendScenario, nil)
+	for _, c := range run.Env.Srv.H.Commits {
+		fmt.Printf("=== commit from %s (%d bytes)\n%s\n", c.From.Raw, len(c.Content), c.Content)
+	}
+	for bi := range run.Post {
+		for mi := range run.Post[bi] {
+			fmt.Printf("=== post-render %d/%d (%d bytes) err=%v\n%s\n", bi, mi, len(run.Post[bi][mi]), run.PostErr[bi][mi], run.Post[bi][mi])
+			if run.Pre != nil {
+				fmt.Printf("=== pre-render %d/%d (%d bytes)\n%s\n", bi, mi, len(run.Pre[bi][mi]), run.Pre[bi][mi])
+			}
+		}
+	}
+}
